@@ -5,7 +5,7 @@
 EXTENDS MC_Doc
 C01_Names == { <<"a">>, <<"b">>, <<"a", "SP", "HY", "SP", "b">>, <<"SP", "b", "SP">> }
 C01_Names3 == { <<"a">>, <<"b">>, <<"SP", "a", "SP", "AS", "b">> }
-C01_Sigma == { [unit |-> <<"SP", "SP">>, heading |-> FALSE, crlf |-> FALSE, bullets |-> {"HY"}] }
+C01_Sigma == { [unit |-> <<"SP", "SP">>, heading |-> FALSE, crlf |-> FALSE, bullets |-> {"HY"}, blanks |-> FALSE] }
 C01_Blank == { <<>> }
 C01_Pool  == { <<>> }
 =============================================================================
